@@ -354,6 +354,8 @@ fn palettes() -> Vec<Vec<Val>> {
         vec![Val::Bytes(b"abc".to_vec()), Val::Int(1), Val::text("x"), Val::List(vec![Val::Int(1), Val::Int(2), Val::Int(3)])],
         vec![range, sym("kb"), Val::pair(sym("ka"), Val::Int(5)), Val::text("abc")],
         vec![keyed, range_of(1, 1), Val::Int(0), sym("ka")],
+        // externals: only a host can provide them (SimpleGarnishData has no apply hook of its own: the trait default answers)
+        vec![Val::External(1), Val::Int(5), Val::External(2), Val::Int(7)],
     ]
 }
 
